@@ -1,7 +1,7 @@
 (* C11 -- uses_storage_type never under-reports a storage the stream touches
    Property theorems only: each proof is one application of a lemma proved in Proofs/, followed by Print Assumptions. *)
 From Coq Require Import ZArith List Bool.
-From CS Require SchedProofs UsesProofs ExecBudget RevConv RevBridge4 DiskUses HRevUses.
+From CS Require SchedProofs UsesProofs ExecBudget RevConv RevBridge4 DiskUses HRevUses RevUses0.
 From CS Require Import Actions NAdvance Multistage Exec Sched RunFacts Projections BasicInv MultistageRun AllocTotal TLBridge MixBridge.
 Import ListNotations.
 Open Scope Z_scope.
@@ -76,16 +76,29 @@ Proof. exact (@HRevUses.hrev_touch_uses). Qed.
 Print Assumptions C11_hrev_touch_uses.
 End M_C11_hrev_touch_uses.
 
-(* PARTIAL (the three disk classes with snapshots_in_ram = 0, accepted for max_n = 1 only): class-independent fact about the reference executor -- on any error-free monitored run the store sizes stay within the declared budgets and an action touching RAM / DISK is accepted only if that budget is positive; error-freeness of those runs is not proved, so touched => uses rests on correspondence + oracle *)
-Module M_C11_touch_needs_budget_partial.
+(* the remaining corner of the Revolve family -- DiskRevolve, PeriodicDiskRevolve, HRevolve with snapshots_in_ram = 0, which the constructor accepts for max_n = 1 only: the op list is a single adjoint step and no yielded action touches RAM or DISK, under every history *)
+Module M_C11_revfam_no_ram_touch_uses.
+Import RevUses0.
+Theorem C11_revfam_no_ram_touch_uses :
+  forall (kd : RevConv.rkind) (disk uf ub0 wd rd : Z) (p : Exec.xparams) (ops : list Sched.op)
+           (o0 : Sched.obs) (m : Sched.mon) (ls : list Sched.line),
+         kd = RevConv.KDiskRevolve \/ kd = RevConv.KPeriodic \/ kd = RevConv.KHRevolve ->
+         Sched.run_case (Sched.PRev kd 1 0 disk uf ub0 wd rd) p ops = Actions.Ok (o0, m, ls) ->
+         Forall ExecBudget.touch_uses_line ls.
+Proof. exact (@RevUses0.revfam_no_ram_touch_uses). Qed.
+Print Assumptions C11_revfam_no_ram_touch_uses.
+End M_C11_revfam_no_ram_touch_uses.
+
+(* (auxiliary, class-independent) on any error-free monitored run the store sizes stay within the declared budgets and an action touching RAM / DISK is accepted only if that budget is positive *)
+Module M_C11_touch_needs_budget.
 Import ExecBudget.
-Theorem C11_touch_needs_budget_partial :
+Theorem C11_touch_needs_budget :
   forall (p : Exec.xparams) (ops : list Sched.op) (s : Sched.sched) (m : Sched.mon) 
            (s' : Sched.sched) (m' : Sched.mon) (ls : list Sched.line),
          Sched.run_ops p s m ops = (s', m', ls) ->
          RunFacts.mon_ok m' ->
          BudInv p (Sched.mx m) -> RunFacts.mon_ok m /\ BudInv p (Sched.mx m') /\ Forall (touch_line p) ls.
 Proof. exact (@ExecBudget.run_touch). Qed.
-Print Assumptions C11_touch_needs_budget_partial.
-End M_C11_touch_needs_budget_partial.
+Print Assumptions C11_touch_needs_budget.
+End M_C11_touch_needs_budget.
 
